@@ -402,9 +402,13 @@ func c11Run(c core.Case) core.Result {
 
 func c11Levels(tier string) []core.Level {
 	return []core.Level{
-		{Name: "macro with 0..4 parameters x call with 0..6 arguments x 5 call forms x 10 uses of the result", Gen: func(emit func(core.Case)) {
-			for p := 0; p <= 4; p++ {
-				for a := 0; a <= 6; a++ {
+		{Name: "macro with 0..4 (thorough 0..8) parameters x call with 0..6 (thorough 0..12) arguments x 5 call forms x 10 uses of the result", Gen: func(emit func(core.Case)) {
+			maxP, maxA := 4, 6
+			if thorough(tier) {
+				maxP, maxA = 8, 12
+			}
+			for p := 0; p <= maxP; p++ {
+				for a := 0; a <= maxA; a++ {
 					for form := 0; form < c11Forms; form++ {
 						for use := 0; use < c11Uses; use++ {
 							emit(core.Case{Fam: "call", N: []int{p, a, form, use}})
@@ -442,8 +446,12 @@ func c11Levels(tier string) []core.Level {
 			}
 		}},
 		{Name: "arguments that are literals, macro calls with their own arguments, or zero-argument calls of macros whose bodies call further macros (8 shapes, <= 3 arguments), after an earlier call in the same execution or in two loop iterations x 4 call forms", Gen: func(emit func(core.Case)) {
+			maxN := 3
+			if thorough(tier) {
+				maxN = 4
+			}
 			for form := 0; form < 4; form++ {
-				for n := 1; n <= 3; n++ {
+				for n := 1; n <= maxN; n++ {
 					total := 1
 					for i := 0; i < n; i++ {
 						total *= 8
